@@ -301,6 +301,69 @@ def c06_scripts(seed, n):
     return out
 
 
+REORDER_MIXES = {
+    2: [(("firstOffset", 0), ("lastOffset", 0)), (("offsetAt", 3), ("offsetAt", 7)), (("lastOffset", 0), ("partitions", 3)),
+        (("fetch", 2), ("lastOffset", 0)), (("partitions", 2), ("partitions", 5)), (("offsetAt", 9), ("fetch", 4))],
+    3: [(("firstOffset", 0), ("lastOffset", 0), ("offsetAt", 5)), (("offsetAt", 2), ("partitions", 4), ("fetch", 3)),
+        (("partitions", 1), ("partitions", 4), ("partitions", 6)), (("fetch", 1), ("offsetAt", 5), ("offsetAt", 8))],
+}
+# (one fetch per scenario at most: a Conn has ONE read position -- Seek / Batch.Close of a second goroutine move it and
+# Batch.ReadMessage skips messages below it, so two goroutines fetching from different offsets through one Conn is not a
+# use the library supports; that is not a matter of who gets which response)
+
+
+def c06_reorder_scripts(tier):
+    """No fault, a pure interleaving: k goroutines share the Conn, their requests reach the broker one after the other, and
+    the broker answers them in every order; each goroutine's Write of its request either returns at once or is parked (the
+    bytes are with the broker, the call has not returned) until the broker has answered what it can and the waiting
+    goroutines have looked at the response stream.  Requests of different kinds and of the same kind with distinguishable
+    answers.  Each call must get the answer to its own request, or an error."""
+    import itertools
+    out = []
+    for k in (2, 3):
+        mixes = REORDER_MIXES[k]
+        n = 0
+        for order in itertools.permutations(range(1, k + 1)):
+            for holds in itertools.product((False, True), repeat=k):
+                n += 1
+                for mi, mix in enumerate(mixes):
+                    if tier == "quick" and k == 3 and (mi + n) % 2:
+                        continue
+                    ops = []
+                    for g in range(1, k + 1):
+                        op = {"o": g, "g": g, "kind": mix[g - 1][0], "arg": mix[g - 1][1], "deadlineMs": 3000}
+                        if g > 1:
+                            op["afterReq"] = g - 1
+                        if holds[g - 1]:
+                            op["holdWrite"] = True
+                        ops.append(op)
+                    out.append({"id": "c06-reorder-g%d-m%d-a%s-h%s" % (k, mi, "".join(map(str, order)), "".join("1" if h else "0" for h in holds)),
+                                "kind": "c06", "versions": vers(metadata=(1, 6)[n % 2], fetch=(10, 5, 2)[n % 3]), "ops": ops, "report": False, "codec": 0,
+                                "answerOrder": list(order)})
+    return out
+
+
+def c06_pool_poison_scripts(tier):
+    """Recycled buffers again, the first step being a fetch whose FIRST message / batch header cannot be read, closed once
+    (instead of a batch closed twice): the record set is n bytes long (the broker stopped at MaxBytes), the connection is
+    lost n bytes into it, or the rest comes after the deadline -- for message sets v0 / v1 (headers of 18 / 26 bytes) and
+    record batches (61 bytes).  Then two Conns read compressed batches side by side."""
+    quick = tier == "quick"
+    cases = []
+    for magic, hdr in ((0, 18), (1, 26), (2, 61)):
+        ns = range(1, hdr) if not quick else (list(range(1, 12)) + [hdr - 1] if magic < 2 else [1, 4, 8, 10, 12, 16, 17, 21, 33, 45, 57, 60])
+        cases += [("trunc", n, magic) for n in ns]
+        cases += [("cut", n, magic) for n in ((0, 1, 8, 12, 16, hdr - 1) if quick else range(0, hdr))]
+        cases += [("stall", n, magic) for n in ((0, 10, hdr - 1) if quick else (0, 1, 8, 10, 12, 16, 17, hdr - 1))]
+    out = []
+    for i, (mode, n, magic) in enumerate(cases):
+        for codec in ((1 + i % 4,) if quick else (1, 2, 3, 4)):
+            fv = (10, 5, 2)[(i + codec) % 3]
+            out.append({"id": "c06-pool-%s%d-m%d-c%d-v%d" % (mode, n, magic, codec, fv), "kind": "pool", "versions": vers(fetch=fv), "ops": [],
+                        "report": False, "codec": codec, "poison": {"mode": mode, "n": n, "magic": magic}})
+    return out
+
+
 C17_OPS = [("lastOffset", 0, vers(), "listoffsets-v1"), ("partitions", 3, vers(metadata=1), "metadata-v1"), ("partitions", 3, vers(), "metadata-v6"),
            ("brokers", 0, vers(), "brokers-v1"), ("produce", 0, vers(produce=2), "produce-v2"), ("produce", 0, vers(produce=3), "produce-v3"),
            ("produce", 0, vers(), "produce-v7"), ("fetch", 3, vers(fetch=2), "fetch-v2"), ("fetch", 3, vers(fetch=5), "fetch-v5"), ("fetch", 3, vers(), "fetch-v10"),
@@ -520,7 +583,9 @@ def model_check(ctx, prop, tier):
     nops = "{1, 2, 3}" if tier == "quick" else "{1, 2, 3, 4}"
     cfg = "MC_%s.cfg" % prop
     with open(os.path.join(d, cfg), "w") as f:
-        f.write("SPECIFICATION Spec\nCONSTANTS Ops = %s\n ConsumeAll = TRUE\n MaxCuts = 1\n MaxTimeouts = 1\n" % nops)
+        # the broker answers in any order for C06 ("every order and delay in which the broker answers"), in request order
+        # for the checks that are not about who gets which response (state space as before)
+        f.write("SPECIFICATION Spec\n%sCONSTANTS Ops = %s\n ConsumeAll = TRUE\n MaxCuts = 1\n MaxTimeouts = 1\n" % ("" if prop == "C06" else "CONSTANT AnswerInOrder <- Yes\n", nops))
         f.write("INVARIANTS TypeOK " + " ".join(invs) + "\n")
         if props:
             f.write("PROPERTIES " + " ".join(props) + "\n")
@@ -543,7 +608,28 @@ def model_check(ctx, prop, tier):
         r3 = ctx.tlc(ENGINE, "ConnMux", "MC_defect2.cfg", workers=8, timeout=300)
         if r3["violated"] != "C11_NoSpuriousNoProgress":
             raise Inconclusive("vacuity guard failed: the model without close-on-ErrNoProgress was not rejected")
-    return {"states": r["distinct"], "transitions": r["generated"], "mc_depth": r["depth"], "mc_ops": nops}
+    guards = {}
+    if prop == "C06":
+        # vacuity guard under out-of-order answers: a client that counts a caller as in flight only once it waits for its
+        # response AND lets a sole counted waiter take whatever response comes next hands two calls each other's answers
+        # as soon as the broker answers the later request first -- the model must reject it; each half alone is harmless
+        def variant(name, subst, invs):
+            with open(os.path.join(d, name), "w") as f:
+                f.write("SPECIFICATION Spec\n" + "".join("CONSTANT %s <- Yes\n" % x for x in subst) +
+                        "CONSTANTS Ops = {1, 2, 3}\n ConsumeAll = TRUE\n MaxCuts = 0\n MaxTimeouts = 0\nINVARIANTS %s\nCHECK_DEADLOCK FALSE\n" % invs)
+            return ctx.tlc(ENGINE, "ConnMux", name, workers=8, timeout=600)
+        r4 = variant("MC_defect3.cfg", ["EnterAtWait", "SoleWaiterTakes"], "C06_OwnResponse")
+        if r4["violated"] != "C06_OwnResponse":
+            raise Inconclusive("vacuity guard failed: the client whose sole waiter takes any response was not rejected: " + r4["out"][-800:])
+        guards["sole_waiter_takes_any_rejected"] = True
+        if tier != "quick":
+            for half in ("EnterAtWait", "SoleWaiterTakes"):
+                r5 = variant("MC_half_%s.cfg" % half, [half], "C06_OwnResponse")
+                if r5["violated"] or r5["error"] or r5["timeout"]:
+                    raise Inconclusive("the model with only %s does not satisfy C06_OwnResponse: %s" % (half, r5["out"][-800:]))
+                guards["only_%s_holds" % half] = r5["distinct"]
+    return {"states": r["distinct"], "transitions": r["generated"], "mc_depth": r["depth"], "mc_ops": nops, "mc_guards": guards,
+            "mc_answer_order": "any" if prop == "C06" else "request order"}
 
 
 def run_part(ctx, prop):
@@ -567,7 +653,9 @@ def run_part(ctx, prop):
         cov["fragmented_fetch_shapes"] = {k: [[(r["off"], r["k"], r["v"]) + ((r["hn"], r["hk"], r["hv"]) if "hn" in r else ()) for r in b] for b in v] for k, v in SHAPES.items()}
         cov["fragmented_fetch_frames"] = {k[len("c11fragprobe-"):]: v for k, v in lens.items()}
     elif prop == "C06":
-        scripts = c06_scripts(seed, 200 if tier == "quick" else 3000)
+        scripts = c06_scripts(seed, 200 if tier == "quick" else 3000) + c06_reorder_scripts(tier) + c06_pool_poison_scripts(tier)
+        cov["reorder_scenarios"] = sum(1 for x in scripts if x.get("answerOrder"))
+        cov["pool_scenarios"] = sum(1 for x in scripts if x.get("kind") == "pool")
     else:
         probes = c17_probe_scripts(tier)
         ptr = run_scripts(ctx, probes, "probe")
